@@ -30,6 +30,8 @@ pub struct CodeEvent<'c, 'a> {
     pub value_type: String,
     pub code: &'c CodeBody<'a>,
     pub evaluated_constant: bool,
+    /// Number of diagnostics pushed before this observation point.
+    pub diagnostics_len: usize,
 }
 
 type Observer = Box<dyn FnMut(&CodeEvent<'_, '_>)>;
@@ -52,6 +54,7 @@ pub(super) fn observe(
     phase: &'static str,
     object_tree: &ObjectTree,
     object_code_maps: &[ObjectCodeMap],
+    diagnostics_len: usize,
 ) {
     OBSERVER.with(|o| {
         let mut o = o.borrow_mut();
@@ -70,6 +73,7 @@ pub(super) fn observe(
                 None,
                 "",
                 code_map.properties(),
+                diagnostics_len,
             );
             for c in code_map.callbacks() {
                 f(&CodeEvent {
@@ -82,6 +86,7 @@ pub(super) fn observe(
                     value_type: String::new(),
                     code: c.code(),
                     evaluated_constant: false,
+                    diagnostics_len,
                 });
             }
             for (cls, (_, map)) in code_map.all_attached_properties() {
@@ -95,6 +100,7 @@ pub(super) fn observe(
                     Some(&acls),
                     "",
                     map,
+                    diagnostics_len,
                 );
             }
         }
@@ -111,6 +117,7 @@ fn visit_map(
     attached_class: Option<&str>,
     prefix: &str,
     map: &HashMap<&str, PropertyCode>,
+    diagnostics_len: usize,
 ) {
     for (name, p) in map {
         let path = if prefix.is_empty() {
@@ -129,6 +136,7 @@ fn visit_map(
                 value_type: ty.qualified_cxx_name().into_owned(),
                 code,
                 evaluated_constant: p.is_evaluated_constant(),
+                diagnostics_len,
             }),
             PropertyCodeKind::GadgetMap(_, m) | PropertyCodeKind::ObjectMap(_, m) => visit_map(
                 f,
@@ -139,6 +147,7 @@ fn visit_map(
                 attached_class,
                 &path,
                 m,
+                diagnostics_len,
             ),
         }
     }
